@@ -5,6 +5,7 @@ Model), so it keeps working whatever happens to the code or the model.
 -/
 import Sqroot.Driver.SpecRoot
 import Sqroot.Driver.SpecPos
+import Sqroot.Driver.SpecScript
 open Sqroot.Driver
 
 def specLine (l : Line) : String :=
@@ -18,6 +19,8 @@ def specLine (l : Line) : String :=
     | some num, some den, some k => specRootLine 1 num den k l.res l.rawRes
     | _, _, _ => "FAIL bad args"
   | "pos", [_, script] => specPosLine script l.rawRes
+  | "script", [v, desc, stmts] => specScriptLine v desc stmts l.rawRes
+  | "conc", [v, desc, progs] => specConcLine v desc progs l.rawRes
   | _, _ => "skip"
 
 def main : IO Unit := do
